@@ -298,12 +298,29 @@ func (x *Ctx) hintRules(r *core.Result, rs *core.RuleStat) {
 			rs.Sample("field " + name + ": never written, so it is the constant 0")
 			continue
 		}
+		// only constants are ever stored: the field cannot carry a size from one document to the next
+		allConst := true
+		for _, s := range ss {
+			if _, isConst := s.fs.Val.constInt(); !isConst {
+				allConst = false
+			}
+		}
+		if allConst {
+			rs.Instances++
+			rs.OK(1)
+			rs.Sample("field " + name + ": only constants are stored into it")
+			continue
+		}
 		// child-only: every store's base is a borrowed child (in the parent) or the child under construction (in the borrow function)
 		childOnly := true
 		var borrowFn *ssa.Function
 		for _, s := range ss {
 			if bf := isBorrowResult(s.fs.Base); bf != nil {
 				borrowFn = bf
+				continue
+			}
+			// a store of a constant (a Reset method clearing the hint) carries no size over: harmless wherever it is
+			if _, isConst := s.fs.Val.constInt(); isConst && !(s.fn.Signature.Results().Len() == 1 && structOfType(s.fn.Signature.Results().At(0).Type()) == st) {
 				continue
 			}
 			// inside a borrow function: base is the value it returns
@@ -458,7 +475,7 @@ func C20(x *Ctx, r *core.Result) {
 	pc := r.Rule("R20b+", "positive control: R20b must fire on /verif/selftest/remainder (2 offending allocations) and stay silent on the bounded key slice")
 	x.positiveControlRemainder(r, pc)
 
-	c := r.Rule("R20c", "stack growth: the slice appended at every push has exactly the missing number of slots (top+1-len(stack)) — at most the nesting depth, hence at most the input length per call")
+	c := r.Rule("R20c", "stack growth: after every push that grows it, the stack is at most twice as long as the depth reached plus a constant (exact or geometric growth) — hence linear in the nesting depth and in the input length")
 	x.stackRules(r, c, true)
 	x.wrapperSymmetry(r, c, bufferWrappers...)
 	r.CheckFloor(c, 30)
